@@ -15,6 +15,7 @@ import traceback
 import numpy as np
 
 import c03_gen as G
+import c06_check
 from renormalizer import Mps, Mpo, Op
 from renormalizer.mps import gs
 from renormalizer.utils import CompressConfig, CompressCriteria, EvolveConfig, EvolveMethod, OptimizeConfig
@@ -134,6 +135,12 @@ def run_case(case_seed, exports, fails, stats):
         return
     H = Mpo(model, hterms)
     lines.append("H = Mpo(model, N.hermitian_terms(random.Random(%d), sites)[0])" % hseed)
+    # every operator the calculation sees must carry labels that describe its blocks (dense NumPy invariant)
+    stats["operator_label_checks"] = stats.get("operator_label_checks", 0) + 1
+    if c06_check.op_labels_describe_blocks(H, verbose=False):
+        fails.append({"key": "operator-labels:constructed", "detail": {"which": "Hamiltonian", "qn": [np.asarray(x).tolist() for x in H.qn]},
+                      "repro": PRELUDE + "\n".join(lines) + "\nimport c06_check\nsys.exit(c06_check.op_labels_describe_blocks(H))\n", "case_seed": case_seed})
+        return
     stats["cases"] = stats.get("cases", 0) + 1
     stats.setdefault("sector_mode", {})
     stats["sector_mode"][mode] = stats["sector_mode"].get(mode, 0) + 1
@@ -335,6 +342,12 @@ def run_case(case_seed, exports, fails, stats):
                 if not terms or np.linalg.norm(G.dense_of_terms(sites, desc)) < 1e-12:
                     continue
                 O = Mpo(model, terms)
+                stats["operator_label_checks"] = stats.get("operator_label_checks", 0) + 1
+                if c06_check.op_labels_describe_blocks(O, verbose=False):
+                    fails.append({"key": "operator-labels:constructed", "detail": {"which": "charged operator", "qn": [np.asarray(x).tolist() for x in O.qn]},
+                                  "repro": PRELUDE + "\n".join(lines) + "\nimport c06_check\nO = Mpo(model, G.random_terms(random.Random(%d), sites, False, False, want_charge=None)[0])\nsys.exit(c06_check.op_labels_describe_blocks(O))\n" % tseed,
+                                  "case_seed": case_seed})
+                    return
                 ref = G.dense_of_terms(sites, desc) @ (G.dense_state(cur) * cur.coeff)
                 if np.linalg.norm(ref) < 1e-8:
                     continue            # the operator annihilates the state
